@@ -8,6 +8,9 @@ ENGINES = [
 ENGINES.append({"name": "e3-bytex", "path": "/verif/harness/e1/vb_bytex.go", "serves_properties": ["C04", "C05", "C12"],
      "kind_free_text": "bounded-exhaustive byte strings, template-field substitutions and truncations at every synchronous receiving entry point; each input runs inside its own vsched execution so blocking forever is a detected end state"})
 
+ENGINES.append({"name": "e2-idlx", "path": "/verif/engine/idlx", "serves_properties": ["C10"],
+     "kind_free_text": "independent IDL model + renderer + atom enumerator; programs go through the real parser / compiler (linked from the tree under test) and are compared with the model"})
+
 NOTES = ("Every check rebuilds from /repo's working tree (override: VERIF_REPO) into a mktemp scratch dir that is removed on exit. "
          "KNOWN_FINDINGS.txt lists fixed and open findings; only `finding:` lines suppress a violation.")
 
@@ -53,5 +56,9 @@ CHECKS["C04"] = dict(engine="e3-bytex", design_ref="DESIGN.md §4 C04", techniqu
 CHECKS["C12"] = dict(engine="e3-bytex", design_ref="DESIGN.md §4 C12", technique="exhaustive boundary-grid enumeration (measured exact size S; limit at S-1, S, S+1, ...) over shapes x protocols x transports x directions, driving the real client/server paths",
     text="For 8 message shapes x 3 protocols x payload size classes the exact framed size is measured with an unbounded buffer; the limit is then placed at S-1, S, S+1, S-4, S+4, S/2 and 2S for the bounded output buffer, HTTP requests and responses (in-process round trip through NewFrugalHandlerFunc) and STOMP publishes, and the payload is sized to limit-1, limit, limit+1, limit+5 for request, response and publish over the real NATS transport, server and publisher on the broker model. Oracle: size > limit => REQUEST_TOO_LARGE / RESPONSE_TOO_LARGE and nothing handed to the transport (never a timeout); size <= limit => success with identical bytes; a small call afterwards succeeds.",
     note="Trusted base: hand-written TStruct shapes and a processor function that mirrors generated code (read args, SendReply); fakenats/fakestomp; NATS cases run inside a vsched execution (single default schedule). For the HTTP response limit the 4-byte frame prefix gap (unframed <= limit < framed) is accepted either way.")
+
+CHECKS["C10"] = dict(engine="e2-idlx", design_ref="DESIGN.md §4 C10", technique="bounded-exhaustive program enumeration (all declaration atoms x all lexical styles) against an independent model of the IDL",
+    text="1555 declaration atoms (3500+ thorough: container depth 2) - fields of every type shape x requiredness x default, enum numbering patterns, constants of every literal kind, typedefs, unions, exceptions, 68 service shapes, scope prefixes, namespaces, includes, and 34 awkward identifiers in 20 identifier positions - each rendered under 48 (120 thorough) lexical styles; parser.ParseFrugal's result, dumped canonically, must equal the model the text was rendered from and be independent of the style. Enum numbering follows Thrift (previous + 1).",
+    note="Trusted base: the model/renderer in engine/idlx/idl. 66 grammar findings (identifiers starting with a keyword in type / value positions, dotted enum constant as a const value) are listed in KNOWN_FINDINGS.txt: the PEG generator is not available offline.")
 
 NOT_APPLICABLE = {}
